@@ -700,7 +700,8 @@ Definition can_parallel (cs : list dpinfo) : bool * nat := can_parallel_from fal
 (* what the commands are, and the flags their New*DP constructors declare *)
 Inductive kind :=
 | KRowwise      (* where eval fields rename rex regex makemv mvexpand tojson, bin span=, fillnull <fields> *)
-| KOrdered      (* head dedup streamstats transaction tail: the order of the input matters *)
+| KOrdered      (* head dedup streamstats transaction: the order of the input matters *)
+| KOrderedAll   (* tail: order matters and the whole input is needed *)
 | KTwoPass      (* bin without span, fillnull without fields: need the whole input first *)
 | KAgg          (* stats sort top rare timechart: order-insensitive bottleneck *)
 | KGenerator.   (* gentimes inputlookup *)
@@ -708,6 +709,7 @@ Definition flags_of (k : kind) : dpinfo :=
   match k with
   | KRowwise => mkInfo false false false false false
   | KOrdered => mkInfo true false false false false
+  | KOrderedAll => mkInfo true false true false false
   | KTwoPass => mkInfo false false true true false
   | KAgg => mkInfo false true true false false
   | KGenerator => mkInfo false false false false true
